@@ -118,6 +118,10 @@ class Model:
             from .flatten import flatten_model
 
             self.flattener = flatten_model(self)
+        if not os.environ.get("VERIF_NO_KWNORM"):
+            from .flatten import normalize_calls
+
+            normalize_calls(self)
 
     # ------------------------------------------------------------------ building
     def _walk(self, body, prefix, cls, mod, path, parent_fn):
